@@ -108,7 +108,7 @@ PROPS['C09'] = dict(
 )
 PROPS['C10'] = dict(
     exhaustive=[('rmx', 4)],
-    modules=['SimProc.Props.C10', 'SimProc.Props.Facts', 'SimProc.Props.C11W'], prop_files=['SimProc/Props/C10.lean', 'SimProc/Props/C11W.lean'],
+    modules=['SimProc.Props.C10', 'SimProc.Props.Facts', 'SimProc.Props.C11W', 'SimProc.Props.C10W'], prop_files=['SimProc/Props/C10.lean', 'SimProc/Props/C11W.lean', 'SimProc/Props/C10W.lean'],
     families=[('rm', 400, 8000)],
     tags=tags(*BASE, 'wq', 'r'),
     monitors=M.MONITORS['C10'],
@@ -247,12 +247,12 @@ PROPS['C13'] = floor_prop(
     impl_only_families=[('floorr', 60, 1000)])
 PROPS['C13']['monitors'] = M.MONITORS['C13'] + M.MONITORS['C03'] + M.MONITORS['C12']
 PROPS['C15'] = floor_prop(
-    'C15', ['SimProc.Props.C15', 'SimProc.Props.Facts', 'SimProc.Props.C15W'], ['SimProc/Props/C15.lean', 'SimProc/Props/C15W.lean'],
+    'C15', ['SimProc.Props.C15', 'SimProc.Props.Facts', 'SimProc.Props.C15W', 'SimProc.Props.C15D'], ['SimProc/Props/C15.lean', 'SimProc/Props/C15W.lean', 'SimProc/Props/C15D.lean'],
     {'rec': None, 'd': _c.fields('lvl', 'prod', 'recv'), 'r': None, 'res': _c.only(('shut',))},
     ('rec ',), 'non-trivial = records were written',
     families=[('floor', 100, 2000), ('floors', 100, 2000), ('maint', 60, 1000), ('sched', 60, 1000), ('rm', 60, 1000)])
 PROPS['C16'] = floor_prop(
-    'C16', ['SimProc.Props.C16', 'SimProc.Props.C16W', 'SimProc.Props.C15W'], ['SimProc/Props/C16.lean', 'SimProc/Props/C16W.lean', 'SimProc/Props/C15W.lean'],
+    'C16', ['SimProc.Props.C16', 'SimProc.Props.C16W', 'SimProc.Props.C15W', 'SimProc.Props.C16D', 'SimProc.Props.C15D'], ['SimProc/Props/C16.lean', 'SimProc/Props/C16W.lean', 'SimProc/Props/C15W.lean', 'SimProc/Props/C16D.lean', 'SimProc/Props/C15D.lean'],
     {'d': _c.fields('val', 'vh', 'cost', 'rval'), 'm': _c.fields('val', 'vh'), 'p': _c.fields('v'),
      'rec': _c.only(('supplied_new_part', 'received_part'))},
     ('d ',), 'the runner also checks value bookkeeping on the live objects after every event; non-trivial = a value changed',
